@@ -179,6 +179,16 @@ func checkVerbose(e error, t *tm.Term, newlineFree bool) string {
 		}
 	}
 	walk(m)
+	// hints and details appear verbatim (line by line) in the rendering
+	for _, mn := range mnodes {
+		for _, txt := range []string{mn.Hint, mn.Detail} {
+			for _, ln := range strings.Split(txt, "\n") {
+				if ln != "" && !strings.Contains(out, ln) {
+					return fail("verbose-hint-detail", "%%+v does not show the line %q of a hint/detail verbatim:\n%s", ln, short(out))
+				}
+			}
+		}
+	}
 	if len(mnodes) == len(nodes) {
 		for i, mn := range mnodes {
 			goType := fmt.Sprintf("%T", nodes[i])
@@ -379,10 +389,14 @@ func newlineFreeTerm(t *tm.Term) bool {
 }
 
 func runC09(c *core.Ctx, r *core.Result) {
-	p := plan{fullDepth: 3, coreDepth: 4, strDepth: 1, alphabet: tm.REG}
+	p := plan{dupDepth: 2, fullDepth: 3, coreDepth: 4, strDepth: 2, alphabet: tm.REG}
 	matrixDepth := 2
+	// string variants get the format matrix up to this depth (the %+v
+	// structure check runs on all of them)
+	variantMatrixDepth := 1
 	if c.Thorough() {
-		p = plan{fullDepth: 4, coreDepth: 5, strDepth: 2, alphabet: tm.REG}
+		variantMatrixDepth = 2
+		p = plan{dupDepth: 2, fullDepth: 4, coreDepth: 5, strDepth: 2, alphabet: tm.REG}
 		matrixDepth = 3
 	}
 	r.Bounds = fmt.Sprintf("%s; %%+v structure on every term, local and after hop_K; format matrix (%d formats = verbs vsqxX x 16 flag sets x 3 widths x 4 precisions, + %d bad-verb formats, + %%#v) on terms of depth<=%d, directly when the outermost layer is a library type and always through Formattable", p, len(c09Formats), len(c09BadFormats), matrixDepth)
@@ -406,7 +420,7 @@ func runC09(c *core.Ctx, r *core.Result) {
 						return fail(keyOf(f)+":"+stn, "%s (%s)", textOf(f), stn)
 					}
 					nstates++
-					if t.Depth() <= matrixDepth {
+					if t.Depth() <= matrixDepth && (t.Depth() <= variantMatrixDepth || nonDefaultStrings(t) == "") {
 						if f := checkFormats(e, isLibraryType(e)); f != "" {
 							return fail(keyOf(f)+":"+stn, "%s (%s)", textOf(f), stn)
 						}
